@@ -1705,11 +1705,9 @@ func ExecSelect(query *Query, current []any) ([]any, error) {
 		switch current := current.(type) {
 		case []any:
 			{
-				rs, err := ExecSelect(query, current)
-				if err != nil {
-					return nil, err
-				}
-				copy = append(copy, rs)
+				// the result of an inner array: exec() has already filtered
+				// and projected it with a copy of this query
+				copy = append(copy, current)
 			}
 		case Map:
 			{
